@@ -4,7 +4,7 @@
 From Coq Require Import String Ascii List Bool Arith.
 From LV Require Import Base.Prelude Shape.Chain Shape.Spec Shape.Chain_proofs Shape.Shape_proofs
   Shape.Ebnf Shape.Ebnf_proofs Cfg.Grammar Forest.Sppf Forest.Prio Forest.ExplicitBuild
-  Shape.EarleyLeg Shape.EarleyLeg_proofs Shape.Cnf Shape.Cnf_proofs Shape.CykParse Shape.CykParse_proofs Shape.CnfLink Shape.CnfLink_proofs Shape.CnfClosure_proofs Shape.ToCnf_proofs.
+  Shape.EarleyLeg Shape.EarleyLeg_proofs Shape.Cnf Shape.Cnf_proofs Shape.CykParse Shape.CykParse_proofs Shape.CnfLink Shape.CnfLink_proofs Shape.CnfClosure_proofs Shape.ToCnf_proofs Shape.Engines.
 Import ListNotations.
 Local Open Scope string_scope.
 
@@ -153,8 +153,7 @@ Definition cnf_link_complete (rules : list rrec) (g : list crule) : Prop :=
   forall rid ch, wf_otree rules (ONode rid ch) = true ->
     cder g (cnf_of rules (ONode rid ch)) (CN (NOrig (r_origin (rule_n rules rid)))).
 
-Definition oroot_is (rules : list rrec) (start : string) (d : otree) : Prop :=
-  match d with ONode rid _ => r_origin (rule_n rules rid) = start | OLeaf _ _ => False end.
+(* oroot_is: Shape/Engines.v *)
 
 (* With the link, the whole CYK engine: what Lark(parser='cyk').parse returns is shape of a derivation of
    the input from the start symbol; every sentence is accepted; a sentence with one derivation gets it. *)
@@ -356,3 +355,117 @@ Example C03_example_derivation :
   shape true ex_deriv = Some (Tr "a" [Tok "A" "a"; NoneV; Tr "c" []]) /\
   lalr_run true (postorder ex_deriv) = Some [Tr "a" [Tok "A" "a"; NoneV; Tr "c" []]].
 Proof. repeat split; vm_compute; reflexivity. Qed.
+
+(* ======================= Round 12 ======================================================================= *)
+From Coq Require Import ZArith.
+From LV Require Import Gen.ShapeHoles Shape.GenTie Shape.GenTie_proofs Shape.ValueDriver Shape.ValueDriver_proofs Shape.Engines_proofs
+  Forest.ExplicitAlgBuild Forest.GraphResolve Earley.Alg Cfg.Analysis.
+From LV Require LR.Driver LR.Automaton LR.Lalr_complete.
+
+(* The conditions of Shape/Chain.v are the ones REGENERATED from lark/parse_tree_builder.py on this run
+   (coq/Gen/ShapeHoles.v; translator/gen_shape.py pins the bodies of the three ChildFilter*.__call__,
+   ExpandSingleChild.__call__, maybe_create_child_filter, _init_builders and create_callback and fails closed):
+   _should_expand, the inclusion test `keep_all_tokens or not (sym.is_term and sym.filter_out)`, the test that
+   decides whether a filter is created and which class, the wrapper order of _init_builders with the
+   `expand1 and not alias` test, the callback name `alias or template_source or origin`, and the
+   `len(children) == 1` test of ExpandSingleChild. *)
+Theorem C03_conditions_are_source (X : Type) none kids (nb : builder X) r mp amb exp ka ei ch :
+  maybe_create_child_filter exp ka amb ei = maybe_create_child_filter_g exp ka amb ei /\
+  wrapper_chain r mp amb = wrapper_chain_g r mp amb /\
+  Some (cb_name r) = g_cb_name (r_alias r) (r_tsrc r) (r_origin r) /\
+  apply_wrapper X none kids WExpand1 nb ch = expand_single_g X nb ch.
+Proof.
+  exact (conj (child_filter_is_source exp ka amb ei) (conj (wrapper_chain_is_source r mp amb)
+        (conj (cb_name_is_source r) (expand_single_is_source X none kids nb ch)))).
+Qed.
+Print Assumptions C03_conditions_are_source.
+
+(* The LALR engine with the real value stack: ParserState.feed_token keeps what the callbacks return; on every table
+   and input that is the bottom-up evaluation of the derivation tree LR/Driver keeps (control flow depends on the
+   state stack only). *)
+Theorem C03_value_stack_driver (tok X : Type) ttype (cb : Grammar.rule -> list X -> X) (tokf : tok -> X) P fuel w e :
+  vparse tok ttype X cb tokf P fuel w e = omap tok X cb tokf (Driver.parse tok ttype P fuel w e).
+Proof. exact (vparse_sim tok ttype X cb tokf P fuel w e). Qed.
+Print Assumptions C03_value_stack_driver.
+
+(* ForestToParseTree(resolve) calling the callbacks while it walks the graph forest = the walk, then the callbacks
+   bottom-up on the derivation it selects *)
+Theorem C03_resolve_walk_callbacks (tok : Type) teqb (X : Type) (cb : Grammar.rule -> list X -> X) (tokf : tok -> X) fams order fuel path lbl :
+  gres_cb tok teqb X cb tokf fams order fuel path lbl
+  = option_map (map (evald tok X cb tokf)) (gres tok teqb fams order fuel path lbl).
+Proof. exact (gres_cb_spec tok teqb X cb tokf fams order fuel path lbl). Qed.
+Print Assumptions C03_resolve_walk_callbacks.
+
+(* ENGINES AGREE.  A table of compiled rules (construction assertions hold), injective numbering of the symbol names,
+   and a derivation d (by rule index) that is the ONLY derivation of its yield from the start symbol
+   (Engines.unique_derivation).  Then the three whole model pipelines return the same tree, Spec.shape of d:
+     LALR   the table LR/Automaton.compute_lalr builds for G + ($root -> start), if it is conflict-free
+            (= the grammar is supported by the LALR engine), driven by feed_token with the real value stack and the
+            per-rule callbacks (some fuel suffices);
+     Earley Earley/Alg with the add_family log, then the resolve walk on the label-keyed graph with callbacks, for
+            EVERY order of the packed children (whatever priorities / sort keys say);
+     CYK    to_cnf (if it terminates: no unit cycle) on a table without empty rules (= supported by CYK), the chart,
+            revert_cnf, callbacks.
+   Remaining hypotheses and why: conflict-freeness and the CYK side conditions are "the engine supports the grammar";
+   e is the $END token; the numbering is the harness' choice.  Lexing (token list from text), priorities in the CYK
+   chart (weights) and the dynamic Earley lexers are outside this statement. *)
+Theorem C03_engines_agree rules mp nt_ix t_ix start_name d
+        prio rootnt tEND lfuel A rel LA R qe e cfuel g order :
+  Forall (fun r => rule_wf r mp = true /\ inline_ok r = true) rules ->
+  (forall a b, nt_ix a = nt_ix b -> a = b) -> (forall a b, t_ix a = t_ix b -> a = b) ->
+  unique_derivation rules start_name d ->
+  let G := cfg_grammar rules nt_ix t_ix in
+  let start := nt_ix start_name in
+  Automaton.compute_lalr (G ++ [Grammar.mkRule rootnt [NT start]]) prio [length G] tEND lfuel = Automaton.ATable A rel LA R ->
+  (forall r, In r G -> ~ In (NT rootnt) (Grammar.rhs r)) -> start <> rootnt ->
+  Automaton.end_state (G ++ [Grammar.mkRule rootnt [NT start]]) [length G] A 0 = Some qe ->
+  Lalr_complete.conflict_free A LA -> ttype t_ix e = tEND ->
+  (forall rid, rid < length rules -> exp_of rules rid <> []) -> to_cnf cfuel rules = Ok g ->
+  (forall l fs f, In f (order l fs) <-> In f fs) ->
+  exists t, shape mp (o_dtree rules d) = Some t /\
+    (exists f, lalr_engine rules mp nt_ix t_ix (Driver.ptable_of_rows R 0 qe) f (oyield d) e = Some t) /\
+    earley_engine rules mp nt_ix t_ix order start (oyield d) = Some t /\
+    cyk_engine rules mp cfuel start_name (oyield d) = Some t.
+Proof.
+  cbv zeta. intros Ht Hn Htx Hu HT Hfresh Hne Hqe Hcf He Hnonempty Hcnf Hperm.
+  destruct (shape_total mp _ (wf_otree_dtree rules mp Ht d (proj1 Hu))) as [t Hs]. exists t. split; [exact Hs|].
+  split; [|split].
+  - destruct (lalr_leg rules mp nt_ix t_ix Hn Htx Ht start_name d Hu prio rootnt tEND lfuel A rel LA R qe e HT Hfresh Hne Hqe Hcf He)
+      as [f Hf]. exists f. rewrite Hf. exact Hs.
+  - rewrite (earley_leg rules mp nt_ix t_ix Hn Htx Ht start_name d Hu order Hperm). exact Hs.
+  - unfold cyk_engine. rewrite Hcnf.
+    destruct (C03_cyk_engine_to_cnf rules mp cfuel g start_name Ht Hnonempty Hcnf) as (_ & _ & H3).
+    destruct Hu as (Hwf & Hr & Huniq). destruct (H3 d Hwf Hr Huniq) as [Hp Hc]. rewrite Hp, Hc. exact Hs.
+Qed.
+Print Assumptions C03_engines_agree.
+
+(* Executable instance: `s: a "," c`, `?a: A`, `c: B` on the tokens A "," B - the three pipelines are evaluated
+   (table construction, Earley run with its family log, resolve walk, to_cnf, chart) and return the tree
+   s(A:x, c(B:y)), which is Spec.shape of the derivation [rule 0 [rule 1 [A]; ","; rule 2 [B]]]. *)
+Definition eg_rules : list rrec :=
+  [mkR "s" [mkSym false "a" false; mkSym true "COMMA" true; mkSym false "c" false] None None false false [];
+   mkR "a" [mkSym true "A" false] None None false true [];
+   mkR "c" [mkSym true "B" false] None None false false []].
+Definition eg_nt (n : string) : nat := if String.eqb n "s" then 1 else if String.eqb n "a" then 2 else if String.eqb n "c" then 3 else 4.
+Definition eg_t (n : string) : nat := if String.eqb n "A" then 1 else if String.eqb n "COMMA" then 2 else if String.eqb n "B" then 3 else 0.
+Definition eg_d : otree := ONode 0 [ONode 1 [OLeaf "A" "x"]; OLeaf "COMMA" ","; ONode 2 [OLeaf "B" "y"]].
+Definition eg_G := cfg_grammar eg_rules eg_nt eg_t.
+
+Definition eg_lalr : bool * option stree :=
+  match Automaton.compute_lalr (eg_G ++ [Grammar.mkRule 0 [NT 1]]) (repeat 0%Z 4) [3] 0 200 with
+  | Automaton.ATable A rel LA R =>
+      match Automaton.end_state (eg_G ++ [Grammar.mkRule 0 [NT 1]]) [3] A 0 with
+      | Some qe => (Lalr_complete.conflict_free_b A LA,
+                    lalr_engine eg_rules true eg_nt eg_t (Driver.ptable_of_rows R 0 qe) 50 (oyield eg_d) ("$END", ""))
+      | None => (false, None)
+      end
+  | _ => (false, None)
+  end.
+
+Example C03_engines_example :
+  (wf_otree eg_rules eg_d, shape true (o_dtree eg_rules eg_d), eg_lalr,
+   earley_engine eg_rules true eg_nt eg_t (fun _ fs => fs) 1 (oyield eg_d),
+   cyk_engine eg_rules true 50 "s" (oyield eg_d))
+  = (true, Some (Tr "s" [Tok "A" "x"; Tr "c" [Tok "B" "y"]]), (true, Some (Tr "s" [Tok "A" "x"; Tr "c" [Tok "B" "y"]])),
+     Some (Tr "s" [Tok "A" "x"; Tr "c" [Tok "B" "y"]]), Some (Tr "s" [Tok "A" "x"; Tr "c" [Tok "B" "y"]])).
+Proof. vm_compute. reflexivity. Qed.
